@@ -55,6 +55,12 @@ declare -A PROPS=(
  [r5-c17-hp-abandon-active-count]="C17 C18"
  [r5-c06-kirsch-bounded-behind-head]="C06"
  [r5-c13-leftright-wait-hoisted]="C13"
+ [r6-c16-ms-pop-no-help]="C16 C04"
+ [r6-c01-qsbr-exit-deletes-oldest-list]="C01 C17"
+ [r6-c07-vyukov-bounded-late-dtor]="C07 C05"
+ [r6-c13-leftright-first-wait-removed]="C13"
+ [r6-c03-vyukov-tryget-state-relaxed]="C03 C10"
+ [r6-c10-vyukov-extract-ext-prev-lost]="C10 C11"
 )
 if ! git -C /repo diff --quiet -- xenium; then echo "/repo has uncommitted changes under xenium/: refusing"; exit 2; fi
 for d in seeded/*/; do
